@@ -34,6 +34,18 @@ pub fn err_json(e: &IppParseError) -> J {
     }
 }
 
+fn av_order_fixed(v: &AV) -> bool {
+    match v {
+        AV::Set(vs) => vs.iter().all(av_order_fixed),
+        AV::Coll(ms) => ms.len() <= 1 && ms.iter().all(|(_, x)| av_order_fixed(x)),
+        _ => true,
+    }
+}
+/// does RFC 8010 fix the octets of this message completely?
+pub fn order_fixed(m: &AMsg) -> bool {
+    m.groups.iter().all(|g| g.attrs.len() <= 1 && g.attrs.iter().all(|(_, v)| av_order_fixed(v)))
+}
+
 pub fn panic_text(p: Box<dyn std::any::Any + Send>) -> String {
     if let Some(s) = p.downcast_ref::<&str>() {
         s.to_string()
@@ -501,8 +513,12 @@ pub fn run(a: &Args) {
                                 }
                                 let tz = tokenize(&bytes);
                                 let rest = tz.end.map(|e| bytes.len() - e).unwrap_or(0);
+                                // where RFC 8010 leaves no freedom (at most one attribute per group, at most one member per
+                                // collection) the octets must be those of the reference encoding
+                                let fixed = order_fixed(&msg);
+                                let ref_eq = !fixed || bytes == amsg_bytes(&msg);
                                 let ev = json!({"ev": "enc", "case": cid, "msg": msg.json(), "hdr": hdr_json(tz.hdr),
-                                    "toks": toks_json(&tz.toks), "term": tz.term, "rest": rest});
+                                    "toks": toks_json(&tz.toks), "term": tz.term, "rest": rest, "fixed": fixed, "ref_eq": ref_eq});
                                 if samples.len() < 3 {
                                     samples.push(json!({"case": cid, "abstract": case["want"], "bytes": hex_full(&bytes[..bytes.len().min(200)])}));
                                 }
